@@ -98,6 +98,30 @@ def skipToNextLine (st : PState σ) : PState σ :=
 
 def toRange (a b : Pos) : Rng := ⟨a, b⟩
 
+/-! ### keywords (explicit byte lists, so that the kernel can evaluate the model on closed inputs) -/
+
+def kwAccount : Bytes := [97, 99, 99, 111, 117, 110, 116]   -- 'account'
+def kwCommodity : Bytes := [99, 111, 109, 109, 111, 100, 105, 116, 121]   -- 'commodity'
+def kwInclude : Bytes := [105, 110, 99, 108, 117, 100, 101]   -- 'include'
+def kwP : Bytes := [80]   -- 'P'
+def kwY : Bytes := [89]   -- 'Y'
+def kwYear : Bytes := [121, 101, 97, 114]   -- 'year'
+def kwD : Bytes := [68]   -- 'D'
+def kwFormat : Bytes := [102, 111, 114, 109, 97, 116]   -- 'format'
+def kwNote : Bytes := [110, 111, 116, 101]   -- 'note'
+def sepPipe : Bytes := [32, 124, 32]   -- ' | '
+
+#guard kwAccount == HL.bs "account"
+#guard kwCommodity == HL.bs "commodity"
+#guard kwInclude == HL.bs "include"
+#guard kwP == HL.bs "P"
+#guard kwY == HL.bs "Y"
+#guard kwYear == HL.bs "year"
+#guard kwD == HL.bs "D"
+#guard kwFormat == HL.bs "format"
+#guard kwNote == HL.bs "note"
+#guard sepPipe == HL.bs " | "
+
 /-! ### messages (`fmt.Sprintf` with `%s` copies the bytes of a string argument) -/
 
 def mExpectedDate : Bytes := bs "expected date"
@@ -334,7 +358,7 @@ def txDescription (st : PState σ) : (Bytes × Bytes × Bytes) × PState σ :=
       let st := advance E st
       let (note, st) : Bytes × PState σ :=
         if st.current.ty = .text then (trimSpace st.current.val, advance E st) else ([], st)
-      (((if note ≠ [] then payee ++ bs " | " ++ note else payee), payee, note), st)
+      (((if note ≠ [] then payee ++ sepPipe ++ note else payee), payee, note), st)
     else ((desc, [], []), st)
   else (([], [], []), st)
 
@@ -461,8 +485,8 @@ def parseCommodityDirective (startPos : Pos) (st : PState σ) : Option Directive
   let st := skipUntilF E true (fuelOf E st) st
   let st := if st.current.ty = .comment then advance E st else st
   let (subs, st) := parseSubdirectives E st
-  let format := match subLookup subs (bs "format") with | some f => f | none => format
-  let note := match subLookup subs (bs "note") with | some f => f | none => []
+  let format := match subLookup subs (kwFormat) with | some f => f | none => format
+  let note := match subLookup subs (kwNote) with | some f => f | none => []
   (some (.commodity com format note subs (toRange startPos st.current.pos)), st)
 
 /-- The path-collecting loop of `parseIncludeDirective`. -/
@@ -535,19 +559,19 @@ def parseDirective (st : PState σ) : DirResult × PState σ :=
   let directive := st.current.val
   let pos := st.current.pos
   let st := advance E st
-  if directive = bs "account" then
+  if directive = kwAccount then
     let r := parseAccountDirective E pos st; (.ofDir r.1, r.2)
-  else if directive = bs "commodity" then
+  else if directive = kwCommodity then
     let r := parseCommodityDirective E pos st; (.ofDir r.1, r.2)
-  else if directive = bs "include" then
+  else if directive = kwInclude then
     match parseIncludeDirective E pos st with
     | (some i, st) => (.incl i, st)
     | (Option.none, st) => (.none, st)
-  else if directive = bs "P" then
+  else if directive = kwP then
     let r := parsePriceDirective E pos st; (.ofDir r.1, r.2)
-  else if directive = bs "Y" ∨ directive = bs "year" then
+  else if directive = kwY ∨ directive = kwYear then
     let r := parseYearDirective E pos st; (.ofDir r.1, r.2)
-  else if directive = bs "D" then
+  else if directive = kwD then
     let r := parseDefaultCommodityDirective E pos st; (.ofDir r.1, r.2)
   else (.none, skipToNextLine E st)
 
